@@ -103,8 +103,10 @@ IRTChecks(o) ==
      \* on the equator (N = fn, South) and (N = 0, North) are the same point: the representation may flip
      <<"c02_closure_grid_north", o.back.exc # "" \/ IsZero(lat) \/ Within(FromJ(o.back.n), FromJ(o.n), Mm02)>>,
      <<"c02_closure_grid_zone", o.back.exc # "" \/ (o.back.zone = o.zone /\ (IsZero(lat) \/ o.back.hemi = o.hemi))>>,
-     <<"c02_mirror_hemisphere_lat", o.mirror.skip \/ Eq(FromJ(o.mirror.lat), Neg(FromJ(o.lat)))>>,
-     <<"c02_mirror_hemisphere_lon", o.mirror.skip \/ Eq(FromJ(o.mirror.lon), FromJ(o.lon))>>,
+     \* the mirror northing fn - N is a floating-point difference (not exactly the mirror image: up to 2e-9 m off), and the
+     \* latitudes / longitudes are printed to 11 decimals: "opposite / identical" up to one unit of that rounding
+     <<"c02_mirror_hemisphere_lat", o.mirror.skip \/ Within(FromJ(o.mirror.lat), Neg(FromJ(o.lat)), Dec(15, 3))>>,
+     <<"c02_mirror_hemisphere_lon", o.mirror.skip \/ Within(FromJ(o.mirror.lon), FromJ(o.lon), Dec(15, 3))>>,
      <<"c10_psf_fwd_inv", o.back.exc # "" \/ Within(FromJ(o.back.psf), FromJ(o.psf), Psf2e8)>>,
      <<"c10_conv_fwd_inv", o.back.exc # "" \/ Within(FromJ(o.back.conv), FromJ(o.conv), Add(Deg1e9, FromJ(o.convround)))>> >>
 
